@@ -91,11 +91,20 @@ def run_case(case, ctx):
     if not meas:
         ctx.trivial = True
 
+    history = case['sub_seed'] % 4 == 1 and len(meas) >= 2
+
     def setup(spellings, forms):
-        eng = m.FactoredInference(dom, metric=metric, iters=1)
+        eng = m.FactoredInference(dom, metric=metric, iters=1, warm_start=history)
         fixed = eng.fix_measurements(measure.as_tuples(meas, spellings, forms))
+        if history:
+            # a warm-start engine that was set up for part of the list before (the adaptive mechanisms grow their list
+            # call by call): the objective is still that of the list now given
+            eng._setup(fixed[:max(1, len(fixed) // 2)], total)
         eng._setup(fixed, total)
         return eng, fixed
+
+    if history:
+        ctx.tag('warm_start_engine_set_up_before')
 
     eng, fixed = setup(['dense'] * len(meas), ['tuple'] * len(meas))
     model = eng.model
